@@ -55,12 +55,20 @@ func scenarios(tier string) []vlib.Scenario {
 		add(h)
 	}
 	add(params{Policy: "immediate", Ops: []string{"wA1", "wB1"}, F: 0, Store: "default"})
+	// every pair of cut positions on the shortest two-chunk histories, and schedule deviations on one of them
+	add(params{Policy: "immediate", Ops: []string{"wA1", "wB1"}, F: 2, Store: "default"})
+	add(params{Policy: "none", Ops: []string{"wA1", "F", "wB1", "F"}, F: 2, Store: "default"})
+	add(params{Policy: "immediate", Ops: []string{"wA1", "wB1"}, F: 1, P: 1, Store: "default"})
 	if tier == "thorough" {
-		for _, h := range hs {
+		for i, h := range hs {
 			h.F, h.Store = 2, "default"
-			add(h)
+			if i > 1 {
+				add(h)
+			}
 			h.F, h.P = 1, 1
-			add(h)
+			if i != 1 {
+				add(h)
+			}
 		}
 		add(params{Policy: "immediate", Ops: []string{"wA1", "wB1", "wA2"}, F: 2, Store: "default"})
 		add(params{Policy: "immediate", Ops: []string{"wA1", "Z", "wB1", "Z", "wA2"}, F: 2, Store: "default"})
